@@ -471,3 +471,106 @@ def check_sent_fsm(tr):
                     if len(enc) >= 2 and enc[1] == P.ERROR:
                         fails.append(("C14", "Error Report sent in reply to an Error Report"))
     return fails
+
+
+# ------------------------------------------------------------------------------------------
+# additions (round 3)
+# ------------------------------------------------------------------------------------------
+
+def check_write_ops(lines):
+    """C14, per write operation: a PDU goes to the transport through a sequence of write calls, each offering what is
+    still owed.  When a call accepted only part of what it was offered, the next thing that happens has to be the call
+    offering exactly the rest (or a failing call): anything else means that a truncated PDU was taken for sent."""
+    fails = []
+    owed = 0
+    offered = 0
+    stop_seen = False
+    for l in lines:
+        w = l.split()
+        if not w:
+            continue
+        if w[0] == "X":
+            stop_seen = stop_seen or (len(w) > 1 and w[1] == "stop-request")
+            continue
+        if w[0] == "S" and stop_seen and len(w) > 1 and w[1] == "SHUTDOWN":
+            continue          # the callback of rtr_stop, run by another thread while this write was in progress
+        if w[0] in ("W", "V"):
+            req = int(w[1])
+            res = w[3] if w[0] == "W" else w[4]
+            if owed and req != owed:
+                fails.append(("C14", "a write accepted %d of %d bytes and the remaining %d were never offered: a truncated PDU was "
+                              "taken for sent and the next PDU follows the fragment" % (offered - owed, offered, owed)))
+            if res.startswith("-"):
+                owed = 0
+            else:
+                if not owed:
+                    offered = req
+                owed = req - int(res)
+        elif w[0] in ("R", "S", "O", "C", "Z", "ret"):
+            if owed:
+                fails.append(("C14", "a write accepted %d of %d bytes and the remaining %d were never offered: a truncated PDU was "
+                              "taken for sent" % (offered - owed, offered, owed)))
+                owed = 0
+    if owed:
+        fails.append(("C14", "a write accepted %d of %d bytes and the remaining %d were never offered: a truncated PDU was "
+                      "taken for sent" % (offered - owed, offered, owed)))
+    return fails
+
+
+def check_sendall(pdu, out):
+    """one direct call of tr_send_all (`sendall` line): a return value >= 0 is what rtr_send_pdu takes for success, so it has
+    to mean that every byte was accepted by the transport, in order"""
+    fails = []
+    handed = b""
+    ret = None
+    failed = False
+    for l in out:
+        w = l.split()
+        if w and w[0] == "V":
+            if w[4].startswith("-"):
+                failed = True
+            elif len(w) > 5:
+                handed += bytes.fromhex(w[5])
+        elif w and w[0] == "ret":
+            ret = int(w[1])
+    if ret is None:
+        return [("ORACLE", "no return value in the reply to sendall")]
+    if ret >= 0 and (handed != pdu or ret != len(pdu)):
+        fails.append(("C14", "tr_send_all returned %d (success for rtr_send_pdu) although only %d of the %d bytes of the PDU were handed "
+                      "to the transport" % (ret, len(handed), len(pdu))))
+    if ret < 0 and not failed:
+        fails.append(("C14", "tr_send_all returned %d although no write call failed" % ret))
+    if not pdu.startswith(handed):
+        fails.append(("C14", "the bytes handed to the transport are not a prefix of the PDU"))
+    return fails
+
+
+def check_report_codes(before_dump, tr, resetting):
+    """C14 ("it carries the code for that violation"): an Error Report with code 6 (withdrawal of unknown record) or 7
+    (duplicate announcement) has to encapsulate a Prefix / Router Key PDU that, applied in order to the records the
+    cache had, really is one.  Records of the three kinds are independent, so the order of arrival within a kind decides."""
+    fails = []
+    bp, bk = parse_dump(*before_dump)
+    cur = {"p": set() if resetting else set(own(bp)), "k": set() if resetting else set(own(bk))}
+    reports = [x for seg in tr.sent_bytes() for x in P.decode_stream(seg)[0] if x["type"] == P.ERROR and x["f16"] in (6, 7)]
+    if not reports:
+        return fails
+    pdus, _ver = client_parse(tr.consumed, tr.consumed[0] if tr.consumed else 1, 1)
+    verdict = {}
+    for (_o, p, v) in pdus:
+        if p is None or v is not None or p["type"] not in (P.IPV4_PREFIX, P.IPV6_PREFIX, P.ROUTER_KEY):
+            continue
+        rr = rec_of_pdu(p)
+        kind, fl, s = rr[0], rr[1], rr[2]
+        if fl == 1:
+            verdict.setdefault(bytes(p["raw"]), []).append(7 if s in cur[kind] else 0)
+            cur[kind].add(s)
+        elif fl == 0:
+            verdict.setdefault(bytes(p["raw"]), []).append(6 if s not in cur[kind] else 0)
+            cur[kind].discard(s)
+    for e in reports:
+        enc = bytes(e.get("enc") or b"")
+        if enc in verdict and e["f16"] not in verdict[enc]:
+            fails.append(("C14", "Error Report with code %d (%s) for a PDU that is not one, given the records the cache had and the "
+                          "PDUs before it" % (e["f16"], "withdrawal of unknown record" if e["f16"] == 6 else "duplicate announcement")))
+    return fails
